@@ -97,7 +97,7 @@ PROPS = {
                                           "C16_fuel"), gens=["C16"],
                 rule="all bit strings / DNA strings up to a bound, long random ones (64-bit boundary included), numbers "
                      "below the capacity of the width; non-trivial = non-zero value"),
-    "C17": dict(level="proof", theorems=T("C17", "C17_step_bounds", "C17_le_four", "C17_arcless", "C17_regular", "C17_certificate_upper", "C17_certificate_lower"),
+    "C17": dict(level="proof", theorems=T("C17", "C17_step_bounds", "C17_le_four", "C17_arcless", "C17_regular", "C17_certificate_upper", "C17_certificate_lower") + T("C17b", "C17_capStep_entry", "C17_settled_residual", "C17_stop_certificate", "C17_certificate_rat", "C17_stop_accuracy"),
                 not_proved=["the 1e-4 accuracy of the floating-point power iteration under the spectral-gap precondition (needs Perron-Frobenius convergence rates and an IEEE-754 error analysis): TESTED against the Collatz-Wielandt enclosure whose soundness is C17_certificate_*, and the float iteration is compared step by step with the exact-rational model"], gens=["C17"],
                 rule="graphs meeting the structural precondition x modes; non-trivial = non-integer spectral radius"),
     "C18": dict(level="proof", theorems=T("C18", "C18_shape", "C18_argsort_perm", "C18_bijection", "C18_digit_is_rank",
